@@ -24,10 +24,10 @@ import (
 	"os"
 	"path/filepath"
 	"sort"
-	"time"
 
 	"github.com/nspcc-dev/neofs-node/pkg/local_object_storage/shard/mode"
 	"github.com/nspcc-dev/neofs-node/verif/lib/ev"
+	"github.com/nspcc-dev/neofs-node/verif/props/c46/vbinary"
 	sw "github.com/nspcc-dev/neofs-node/verif/worlds/shardworld"
 	"github.com/nspcc-dev/neofs-node/verif/worlds/shardworld/procpool"
 	"github.com/nspcc-dev/neofs-sdk-go/object"
@@ -163,21 +163,17 @@ type readerSpec struct {
 	Class    string
 }
 
-var errAbsurd = errors.New("harness: absurd read size requested")
+// sizeLimit: no record of the harness's dumps is anywhere near this; see vbinary.
+const sizeLimit = 1 << 16
 
 type splitReader struct {
 	data   []byte
 	pos    int
 	sp     readerSpec
 	short  int // reads that returned less than asked although more data followed
-	absurd bool
 }
 
 func (r *splitReader) Read(p []byte) (int, error) {
-	if len(p) > 1<<26 {
-		r.absurd = true
-		return 0, errAbsurd
-	}
 	if len(p) == 0 {
 		return 0, nil
 	}
@@ -213,8 +209,7 @@ type job struct {
 	Reader  readerSpec
 	CorrOff int  // -1 = none; absolute offset of the corrupted byte
 	CorrXor byte
-	Ignore  []bool // ignoreErrors values to run, in this order; a later one is skipped if an earlier
-	// uncorrupted run already mis-restored (see runJob)
+	Ignore  []bool // ignoreErrors values to run
 }
 
 type restoreRes struct {
@@ -224,7 +219,7 @@ type restoreRes struct {
 	Blob, WC    map[string]string // address -> sha256 of stored bytes (raw FSTree read-back)
 	Meta        []string          // addresses the metabase lists as physically stored
 	ShortReads  int
-	Absurd      bool
+	Guard       uint32 // != 0: Restore decoded this record size (> sizeLimit) and was stopped by the guard
 	Harness     string
 }
 
@@ -234,26 +229,63 @@ type jobRes struct {
 
 func sha(b []byte) string { s := sha256.Sum256(b); return hex.EncodeToString(s[:]) }
 
+// target shards: thorough builds a pristine shard for every restore; quick keeps one shard per
+// worker and write-cache flavour and empties it in place (World.ResetEmpty, verified) between restores.
+var (
+	reuse   bool
+	targets = map[bool]*sw.World{}
+)
+
+func target(wc bool) (*sw.World, error) {
+	if reuse {
+		if w := targets[wc]; w != nil {
+			if err := w.ResetEmpty(); err != nil {
+				return nil, err
+			}
+			return w, nil
+		}
+	}
+	dir := newDir("dst")
+	if err := sw.CopyTree(emptyWC[wc], dir); err != nil {
+		return nil, err
+	}
+	w, err := sw.Open(sw.Config{Dir: dir, WriteCache: wc})
+	if err == nil && reuse {
+		targets[wc] = w
+	}
+	return w, err
+}
+
 func restoreOnce(d *dump, stream []byte, sp readerSpec, ignore bool) (res restoreRes) {
 	res.Ran = true
-	dir := newDir("dst")
-	defer os.RemoveAll(dir)
-	if err := sw.CopyTree(emptyWC[d.C.WC], dir); err != nil {
-		res.Harness = err.Error()
-		return
-	}
-	w, err := sw.Open(sw.Config{Dir: dir, WriteCache: d.C.WC})
+	w, err := target(d.C.WC)
 	if err != nil {
 		res.Harness = err.Error()
 		return
 	}
-	rd := &splitReader{data: stream, sp: sp}
-	var rerr error
-	res.Count, res.Fail, rerr = w.Sh.Restore(rd, ignore)
-	if rerr != nil {
-		res.Err = rerr.Error()
+	dir := w.Cfg.Dir
+	if !reuse {
+		defer os.RemoveAll(dir)
 	}
-	res.ShortReads, res.Absurd = rd.short, rd.absurd
+	rd := &splitReader{data: stream, sp: sp}
+	func() {
+		defer func() {
+			if x := recover(); x != nil {
+				g, ok := x.(vbinary.TooLarge)
+				if !ok {
+					panic(x)
+				}
+				res.Guard, res.Count, res.Fail = g.V, -1, -1
+				res.Err = fmt.Sprintf("harness size guard: Restore decoded a record size of %d bytes from a %d-byte stream", g.V, len(stream))
+			}
+		}()
+		var rerr error
+		res.Count, res.Fail, rerr = w.Sh.Restore(rd, ignore)
+		if rerr != nil {
+			res.Err = rerr.Error()
+		}
+	}()
+	res.ShortReads = rd.short
 	if lst, err := w.Sh.List(); err != nil {
 		res.Harness = "list: " + err.Error()
 	} else {
@@ -262,8 +294,10 @@ func restoreOnce(d *dump, stream []byte, sp readerSpec, ignore bool) (res restor
 		}
 		sort.Strings(res.Meta)
 	}
-	if err := w.Close(); err != nil {
-		res.Harness = "close: " + err.Error()
+	if !reuse {
+		if err := w.Close(); err != nil {
+			res.Harness = "close: " + err.Error()
+		}
 	}
 	blob, wc, err := sw.RawObjects(dir)
 	if err != nil {
@@ -296,26 +330,11 @@ func runJob(j job) jobRes {
 	}
 	stream := corrupt(d, j)
 	out := jobRes{R: make([]restoreRes, len(j.Ignore))}
-	t0 := time.Now()
-	defer func() {
-		if dt := time.Since(t0); dt > time.Second && os.Getenv("C46_DEBUG") != "" {
-			fmt.Fprintf(os.Stderr, "slow job %v: %+v absurd=%v\n", dt, j, out.R[0].Absurd)
-		}
-	}()
 	for i, ig := range j.Ignore {
-		if i > 0 && j.CorrOff < 0 && !exact(d, out.R[i-1]) {
-			// The strict run already mis-restored an intact dump. With ignoreErrors a mis-framed
-			// Restore keeps going and allocates whatever 32-bit "size" it finds in the payload
-			// (up to 4 GiB per record); not run - the violation is already on record.
-			continue
-		}
 		out.R[i] = restoreOnce(d, stream, j.Reader, ig)
 	}
 	return out
 }
-
-// exact: the restore of an intact dump did what the property demands.
-func exact(d *dump, r restoreRes) bool { return len(judgeIntact(d, r)) == 0 }
 
 func stored(r restoreRes) map[string]string {
 	m := map[string]string{}
@@ -386,6 +405,8 @@ func compareSet(recs []record, skip map[int]bool, r restoreRes) []string {
 
 func main() {
 	r := ev.Start("C46", ev.Exploration)
+	vbinary.Limit.Store(sizeLimit)
+	reuse = r.Quick()
 	scratch = procpool.Scratch("verif-c46-")
 	finish := func() { os.RemoveAll(scratch); r.Finish() }
 	fatal := func(f string, a ...any) { os.RemoveAll(scratch); r.Fatal(f, a...) }
@@ -395,11 +416,7 @@ func main() {
 		{"1obj-wc-cached", 1, true, 0}, {"2obj-wc-cached", 2, true, 0}, {"4obj-wc-2flushed", 4, true, 2}, {"3obj-wc-1flushed", 3, true, 1},
 	}
 	for _, c := range contents {
-		t0 := time.Now()
 		d, err := buildDump(c)
-		if os.Getenv("C46_DEBUG") != "" {
-			fmt.Fprintln(os.Stderr, "buildDump", c.Name, time.Since(t0))
-		}
 		if err != nil {
 			fatal("%v", err)
 		}
@@ -415,21 +432,13 @@ func main() {
 			fatal("empty image: %v", err)
 		}
 		emptyWC[wc] = dir
-		if os.Getenv("C46_DEBUG") != "" {
-			fmt.Fprintln(os.Stderr, "empty image", wc, time.Now().Format("15:04:05.000"))
-		}
 	}
 
 	classes := map[string]int{}
-	skipped := 0
 	undetected := 0
 	check := func(j job, jr jobRes) {
 		d := dumps[j.Dump]
 		for i, res := range jr.R {
-			if !res.Ran {
-				skipped++
-				continue
-			}
 			r.Eval(1)
 			if res.Harness != "" {
 				fatal("%+v: %s", j, res.Harness)
@@ -538,12 +547,7 @@ func main() {
 		}
 		r.LoadReplay(&rp)
 		rp.Job.Ignore = []bool{rp.IgnoreErrors}
-		t0 := time.Now()
-		jr := runJob(rp.Job)
-		if os.Getenv("C46_DEBUG") != "" {
-			fmt.Fprintln(os.Stderr, "runJob", time.Since(t0))
-		}
-		check(rp.Job, jr)
+		check(rp.Job, runJob(rp.Job))
 		finish()
 	}
 
@@ -595,38 +599,15 @@ func main() {
 	masks := []byte{0x01, 0x80, 0xff}
 	for _, rc := range dumps[cd].Recs {
 		for off := rc.Off; off < rc.Off+4+len(rc.Data); off++ {
-			if off < rc.Off+4 {
-				// size field: only with ignoreErrors=false (a damaged size makes any implementation
-				// allocate the claimed size; skipping mode would then chase garbage sizes), and only
-				// masks that keep the claimed size below 2^25
-				b := off - rc.Off
-				ms := []byte{0x01, 0x80}
-				if b >= 2 {
-					ms = []byte{0x01}
-				}
-				for _, x := range ms {
-					add(cd, readerSpec{Class: "full-reads"}, off, x, []bool{false})
-				}
-				continue
-			}
 			for _, x := range masks {
 				add(cd, readerSpec{Class: "full-reads"}, off, x, both)
 			}
 		}
 	}
 
-	dbg := func(what string) {
-		if os.Getenv("C46_DEBUG") != "" {
-			fmt.Fprintln(os.Stderr, time.Now().Format("15:04:05.000"), what)
-		}
-	}
-	dbg(fmt.Sprintf("jobs=%d", len(jobs)))
 	pool := procpool.Start(runJob)
-	dbg("pool started")
 	res, done := pool.Map(jobs, r.Expired)
-	dbg("map done")
 	pool.Close()
-	dbg("pool closed")
 	complete := true
 	for i := range jobs {
 		if !done[i] {
@@ -639,18 +620,17 @@ func main() {
 		r.Set("class:"+k, v)
 	}
 	r.Set("outcome_classes", len(classes))
-	r.Set("restores_not_run_because_strict_twin_already_failed", skipped)
 	r.Set("corruptions_that_still_decode_as_an_object", undetected)
 	var sizes []int
 	for _, d := range dumps {
 		sizes = append(sizes, len(d.Bytes))
 	}
 	r.Set("dump_sizes", sizes)
-	r.Rule(fmt.Sprintf("9 real dumps (0..4 objects, no write-cache / all cached / part flushed), each restored with ignoreErrors off and on through: full reads; final bytes with EOF; EVERY single split point; max chunk 1..16; plus every subset of split points inside %d-byte windows (stream head, offset 6, record boundary, tail) of %d dump(s); plus every byte of every record of the 3-object dump xor {01,80,ff} (size field: ignoreErrors=false only, bounded masks). Non-trivial = the reader really delivered a short read / EOF with data, or a byte was corrupted", win, len(winDumps)))
+	r.Rule(fmt.Sprintf("9 real dumps (0..4 objects, no write-cache / all cached / part flushed), each restored with ignoreErrors off and on through: full reads; final bytes with EOF; EVERY single split point; max chunk 1..16; plus every subset of split points inside %d-byte windows (stream head, offset 6, record boundary, tail) of %d dump(s); plus every byte of every record of the 3-object dump xor {01,80,ff} (size fields included). Non-trivial = the reader really delivered a short read / EOF with data, or a byte was corrupted", win, len(winDumps)))
 	r.Exhaustive(complete)
 	r.Assume("a corrupted record is 'detectable' iff the SDK cannot decode it as an object; payload/ID flips that still decode are stored as decoded and only the untouched records are judged",
-		"size-field corruption is not exercised with ignoreErrors=true: the format has no resynchronisation, any implementation then reads garbage sizes",
-		"after an intact dump was mis-restored with ignoreErrors=false the ignoreErrors=true twin is not run (a mis-framed skipping restore allocates up to 4 GiB per bogus size)")
+		"after a damaged size field the format cannot resynchronise: only 'no false claim of full success' and 'records before the damaged one intact' are demanded there",
+		"restore.go's binary.LittleEndian.Uint32 is routed through props/c46/vbinary: same value, but a decoded record size above 64 KiB (the dumps are < 1 KiB) stops the Restore call with a recoverable panic instead of a multi-GiB allocation; such a stop on an intact dump is judged like any other failed restore")
 	finish()
 }
 
